@@ -376,10 +376,10 @@ def incomplete_instantiation(prog, q):
         member of A is a template-id B<e'> that, with e substituted, mentions no type parameter of B either; the
         evaluation of the query expands such a member of B, later that member of A, and later again looks into B<...>;
     (2) a member of A is a template-id B<e'> without any type parameter of A, B defined later than A; the evaluation
-        reaches that member of A from another instantiation (not as the first step) and later looks into B<...>."""
+        expands that member of A and later looks into B<...>."""
     dflt, defs, uses = prog
     order, _ = expansions(prog, q)
-    for k2 in range(1, len(order)):
+    for k2 in range(len(order)):
         A, s = order[k2]
         b = own_resolved(defs, A, s)
         if b[0] == "t" and ORDER.index(b[1]) > ORDER.index(A) and value_only(b, A) \
@@ -674,9 +674,19 @@ def templ_nontype(ctx, work, caps=None):
         open(os.path.join(work, fn), "w").write('#include "%s"\n__begin_publish\n%s\n__end_publish\n' % (hdr, "\n".join(decls)))
         protos = {}
         dbfail = None
+        refused = {}                      # declarations interrogate rejects: reported per case, then left out
         if pub and not rej:
-            rr = run.run_tool("interrogate", ["-od", "nq%03d.in" % bi, "-oc", "nq%03d.cxx" % bi, "-module", "m", "-library", "l",
-                                              "-c", "-fnames", fn], cwd=work, timeout=600)
+            for attempt in range(12):
+                rr = run.run_tool("interrogate", ["-od", "nq%03d.in" % bi, "-oc", "nq%03d.cxx" % bi, "-module", "m", "-library", "l",
+                                                  "-c", "-fnames", fn], cwd=work, timeout=600)
+                named = set((int(a), int(b)) for a, b in re.findall(r"\br(\d+)_(\d+)\(", rr.stderr)) & set(pub)
+                if rr.rc == 0 or rr.timed_out or not named:
+                    break
+                for k in named:
+                    refused[k] = "rejected: " + " ".join(rr.stderr.split())[:300]
+                pub = [k for k in pub if k not in named]
+                decls = ["%s %sr%d_%d();" % (rt(byn[n][2][qi][0], n), ret_form(n, byn[n][2][qi][1]), n, qi) for n, qi in pub]
+                open(os.path.join(work, fn), "w").write('#include "%s"\n__begin_publish\n%s\n__end_publish\n' % (hdr, "\n".join(decls)))
             if rr.rc != 0:
                 dbfail = "rc=%s signal=%s timeout=%s %s" % (rr.rc, rr.signal, rr.timed_out, rr.stderr[-400:])
             else:
@@ -707,7 +717,8 @@ def templ_nontype(ctx, work, caps=None):
                 bad3[owner3[l]] = protos[owner3[l]]
             else:
                 return ("sanity", "database TU fails outside any case:\n" + err[:1500])
-        return ("ok", batch, rejected, bad_cases, compared, bad3, missing3, dbfail, len(pub) - len(missing3) if not dbfail else 0)
+        bad3.update(refused)
+        return ("ok", batch, rejected, bad_cases, compared, bad3, missing3, dbfail, (len(pub) - len(missing3) if not dbfail else 0) + len(refused))
 
     total = 0
     stats = {}
